@@ -192,8 +192,18 @@ func (g *tmplGen) elem(cond string) *TNode {
 		default:
 			if len(g.frags) > 0 && !raw {
 				name := g.frags[g.r.Intn(len(g.frags))]
-				if g.r.Chance(15) {
+				if g.r.Chance(20) {
 					name = "${fname}"
+				}
+				hasRange := false
+				for _, a := range attrs {
+					if a.Name == g.ap+"range" {
+						hasRange = true
+					}
+				}
+				if !hasRange && g.r.Chance(10) { // a computed name that differs from item to item
+					attrs = append(attrs, TAttr{Name: g.ap + "range", Value: sp(g.q("_, fx : fnames")), Ctl: true})
+					name = "${fx}"
 				}
 				if g.r.Chance(5) {
 					name = "nosuch"
